@@ -162,6 +162,16 @@ def run_op(model, op, idmode=None, tag="", watch_globals=False, consts=None):
         teams = consts["__prev_teams__"]  # the very list object (and rating objects) of the previous predict call
     else:
         teams = _mk_teams(model, op, idmode, tag)
+        if op["op"] != "rate" and consts is not None:
+            # the subject passes teams with identical values as ONE list object in several slots; the oracle (consts is
+            # None) gets separate lists: results must not depend on object identity
+            first = {}
+            for i, t in enumerate(op["teams"]):
+                key = tuple((p[0], p[1]) for p in t)
+                if key in first:
+                    teams[i] = teams[first[key]]
+                else:
+                    first[key] = i
     if consts is not None:
         consts["__prev_teams__"] = teams if op["op"] != "rate" else None
     if op["op"] == "rate":
